@@ -88,6 +88,14 @@ def make_reps(n, rows, rng):
     def f_tuple(x):
         return tuple(tcols[input_to_canonical_index(x)])
     reps = {'table': tt, 'py': PyFunction(f_list, input_size=n), 'py_tuple': PyFunction(f_tuple, input_size=n, output_size=m)}
+    # the same table given as strings of 0/1, as 0/1 integers, as tuples
+    reps['table_str'] = TruthTable([''.join('1' if b else '0' for b in r) for r in rows])
+    reps['table_int'] = TruthTable([[1 if b else 0 for b in r] for r in rows])
+    reps['table_tuple'] = TruthTable(tuple(tuple(r) for r in rows))
+    # a callable with positional parameters (n >= 1: the signature fixes the input size)
+    if 1 <= n <= 4:
+        src = 'lambda ' + ', '.join(f'a{i}' for i in range(n)) + ': F([' + ', '.join(f'a{i}' for i in range(n)) + '])'
+        reps['py_positional'] = PyFunction.from_positional(eval(src, {'F': f_list}), output_size=(m if rng.random() < 0.5 else None))
     # identity-like functions given as callables that return their ARGUMENT OBJECT
     if m == n and all(tcols[i] == [bool((i >> (n - 1 - k)) & 1) for k in range(n)] for i in range(2 ** n)):
         reps['py_alias'] = PyFunction(lambda x: x, input_size=n, output_size=n)
